@@ -270,7 +270,19 @@ func (w *world) doSetIdentity(i int, writer string) {
 // writer's key, changed payload, or a different log id.  Joining from it exercises C06.
 func (w *world) doTamper(src int, oldest bool) {
 	s := w.reps[src]
-	ents := s.log.GetEntries().Slice()
+	// only entries that are not heads are tampered with: head OBJECTS of the source are merged into the
+	// destination's head map without validation when the destination already holds that hash, and two
+	// objects with one CID but different content cannot come out of a content-addressed store
+	isHead := map[string]bool{}
+	for _, h := range s.log.RawHeads().Slice() {
+		isHead[h.GetHash().String()] = true
+	}
+	var ents []iface.IPFSLogEntry
+	for _, e := range s.log.GetEntries().Slice() {
+		if !isHead[e.GetHash().String()] {
+			ents = append(ents, e)
+		}
+	}
 	if len(ents) == 0 {
 		return
 	}
@@ -281,14 +293,16 @@ func (w *world) doTamper(src int, oldest bool) {
 		if oldest {
 			// one of the three oldest entries of the linearisation (deep in a long chain)
 			vs := s.log.Values().Slice()
-			e = vs[w.r.Intn(minI(3, len(vs)))]
+			if c := vs[w.r.Intn(minI(3, len(vs)))]; !isHead[c.GetHash().String()] {
+				e = c
+			}
 		}
 		bad[e.GetHash().String()] = []string{"nosig", "badsig", "nokey", "otherkey", "payload", "wrongid"}[w.r.Intn(6)]
 	}
 	om := entry.NewOrderedMap()
 	var invalid, wrongid []string
 	mod := map[string]iface.IPFSLogEntry{}
-	for _, e := range ents {
+	for _, e := range s.log.GetEntries().Slice() {
 		kind, ok := bad[e.GetHash().String()]
 		if !ok {
 			om.Set(e.GetHash().String(), e)
@@ -653,7 +667,8 @@ func runCore(seed int64, nHist, nOps int, out *bufio.Writer, thorough bool) *cor
 				continue
 			case c < 92 && (shared || acl):
 				if acl {
-					w.doSetIdentity(i, fmt.Sprintf("w%d", r.Intn(nRep)))
+					// a fresh identity: sharing a writer between replicas would create clock ties
+					w.doSetIdentity(i, fmt.Sprintf("s%d_%d", i, k))
 				} else {
 					w.doSetIdentity(i, fmt.Sprintf("w%d", r.Intn(nWr)))
 				}
